@@ -994,7 +994,9 @@ def same_object_rule(plain, inpl, receiver, info, path="r"):
         return
     if isinstance(plain, (list, tuple)) and isinstance(inpl, (list, tuple)) and len(plain) == len(inpl):
         for i, (p, q_) in enumerate(zip(plain, inpl)):
-            if i == 0 or not isinstance(p, kinds):
+            # align_ hands back its (modified) arguments after the receiver; everywhere else (e.g. measure_ ->
+            # (outcome, mps)) any network in the tuple must be the receiver
+            if i == 0 or info["name"] not in INPLACE_ARGS_DOCUMENTED:
                 same_object_rule(p, q_, receiver, info, f"{path}[{i}]")
 
 
